@@ -19,7 +19,7 @@ import (
 
 func TestMain(m *testing.M) {
 	document.SetGlobalLevel(document.LogLevelSilent)
-	kit.TestMain(m, 1500, 12000)
+	kit.TestMain(m, 500, 8000)
 }
 
 // Case is one history: Ops build a document from scratch (with save/open cycles in between);
@@ -198,8 +198,10 @@ type runner struct {
 	dead     bool
 }
 
+// where names the save being judged; a document that descends from an opened foreign package (the
+// opened object itself, reopened copies, documents rendered from it) carries the facts of that package.
 func (r *runner) where(s string) string {
-	if r.base != nil {
+	if r.baseTag != "" {
 		return s + " opened(" + r.baseTag + ")"
 	}
 	return s
@@ -309,7 +311,7 @@ func (r *runner) runOps(list []ops.Op, phase string) {
 					r.res.Label("tpl-image-placeholder")
 				}
 			case "tplstr", "md":
-				r.base = nil
+				r.base, r.baseTag = nil, "" // a brand-new document, unrelated to what was opened
 				placeholder = false
 			case "header", "footer", "headerpn", "footerpn", "fheader", "ffooter":
 				r.res.Label("header/footer-added")
@@ -372,7 +374,8 @@ func run(c Case) *kit.Result {
 				if info.NonRid {
 					res.Label("foreign:non-rId-ids")
 				}
-				if !info.Dense {
+				libraryLike := info.Dense && info.StylesID == "rId1"
+				if !libraryLike {
 					res.Label("foreign:non-dense")
 				}
 				if c.Foreign.Hyperlink {
@@ -397,7 +400,7 @@ func run(c Case) *kit.Result {
 				if !r.dead {
 					r.saveNow("post final")
 				}
-				if r.grew && !info.Dense {
+				if r.grew && !libraryLike {
 					nonDenseExtended = true
 					res.Label("opened-nondense-then-extended")
 				}
